@@ -40,7 +40,11 @@ RULE = ('history = up to 6 constant definitions (gin.constant over modules {a,b,
         'an ambiguous suffix after each text; 0-2 gin.clear_config() calls before a quarter of '
         'the texts (plain constant values are lists, dicts and user objects, never atomic for '
         'copy/deepcopy; every unambiguous suffix is also read through query_parameter after '
-        'each clear and each observation); optional closing text binding every referenced but '
+        'each clear and each observation); 1-2 shared files of 1-4 statements reached only through '
+        '`include` statements placed anywhere in the texts (file 1 may include file 0), so files '
+        'are included repeatedly, in diamonds and across parse calls, with re-bindings in '
+        'between; gin.query_parameter on a macro (%name, name/macro.value, name/gin.macro.value) '
+        'after a text and on every macro of the case before finalize; optional closing text binding every referenced but '
         'unbound macro; probes called after observed parses and twice after the last; '
         'gin.finalize(). Non-trivial = a checked macro use precedes a definition of that macro, '
         'or a later parse redefines an already used macro, or >=2 constants share a suffix and a '
@@ -56,6 +60,12 @@ ASSUMPTIONS = [
     'a query that is the complete name of one constant and a proper suffix of another is not '
     'used, and defining x.K after K may be accepted or rejected (exact-match precedence is C08)',
     'all constants are defined before the first text is parsed (precondition P)',
+    'gin.query_parameter of a never-bound macro must raise ValueError and leave no trace (the '
+    'rest of the history, finalize included, is judged as if it had not been made); of a macro '
+    'bound to a reference-free literal it must return an equal value; of other macros nothing '
+    'is asserted (only the scope-exact binding counts: %s/m with only s bound is unbound)',
+    'an include statement is in-place inclusion every time it is executed, however often the '
+    'same file was included before',
     'gin.clear_config() (default clear_constants=False, documented to keep constants) empties '
     'the model of macros and bindings and leaves the constants -- the same objects -- defined',
     'gin.query_parameter(<unambiguous constant suffix>) is read as another way of evaluating '
@@ -82,7 +92,10 @@ FLOORS = {'nontrivial': (0.3, _H), 'nt:use-before-def': (0.15, _H),
           'finalize:rejected-unevaluated': (0.03, _H), 'finalize:accepted': (0.2, _H),
           'finalize:offender-only-nested': (0.03, _H), 'via:file-or-include': (0.2, _H),
           'observed-mid-history': (0.1, _H), 'clear_config': (0.15, _H),
-          'const:identity-after-clear': (0.05, _H), 'const:query_parameter': (0.3, _H)}
+          'const:identity-after-clear': (0.05, _H), 'const:query_parameter': (0.3, _H),
+          'include:same-file-again': (0.1, _H), 'include:again-after-rebinding': (0.05, _H),
+          'query:unbound-macro-refused': (0.1, _H), 'query:bound-literal-read': (0.1, _H),
+          'finalize:rejected-after-failed-query': (0.03, _H)}
 TECHNIQUE = ('model-based property testing: Hypothesis-generated parse/define/use histories against '
              'a last-writer-wins reference map, identity checks for constants, plus an exhaustive '
              'sweep of ordered constant-name pairs')
@@ -190,12 +203,17 @@ def _use(core, sibling=st.one_of(_mac, _lit, _const, _macx)):
 
 
 # Hypothesis favours early alternatives: the ones that carry the property come first
+_inc = st.tuples(st.just('inc'), st.integers(0, 1)).map(list)
+# re-bind the first macro a shared file binds, then include that file (again)
+_reinc = st.tuples(st.just('reinc'), st.integers(0, 1), st.integers(0, 999)).map(list)
 _stmt = st.one_of(
     _use(_mac),
     _def(_lit),
+    _inc,
     _def(_ctr),
     _def(_mac),
     _use(_const),
+    _reinc,
     _use(_unev),
     _use(_macx),
     _def(_lit, _lit),
@@ -204,7 +222,12 @@ _stmt = st.one_of(
     st.tuples(st.just('allconst'), st.integers(0, 2), st.integers(0, 2)).map(list),
     _def(_unev),
     _use(_lit, _lit),
+    _inc,
 )
+# statements of the shared include files: mostly macro definitions, so that including a file
+# again after one of its macros was re-bound makes a difference
+_file_stmt = st.one_of(_def(_lit), _def(_ctr), _inc, _def(_mac), _use(_mac), _def(_lit, _lit),
+                       _def(_const))
 VIAS = ['str', 'str', 'list', 'file', 'include', 'split']
 
 
@@ -217,6 +240,8 @@ def _parse_op(draw):
           'skip': draw(st.integers(0, 3)) == 0,
           # number of gin.clear_config() calls (constants are kept) made before this text
           'clear': draw(st.sampled_from([0, 0, 0, 0, 0, 0, 1, 2])),
+          # query_parameter on a macro after this text: [macro index, spelling]
+          'query': draw(st.none() | st.tuples(_small, st.integers(0, 2)).map(list)),
           'ambig': draw(st.none() | st.none() | st.tuples(_small, st.integers(0, 2)).map(list))}
 
 
@@ -238,6 +263,12 @@ def strategy(draw):
       'macros': draw(st.lists(st.sampled_from(MACROS), min_size=2, max_size=4, unique=True)),
       'consts': draw(st.lists(_const_op, min_size=0, max_size=6)),
       'parses': draw(st.lists(_parse_op(), min_size=1, max_size=4)),
+      # shared files reached only through `include` statements (['inc', i]); file 1 may itself
+      # include file 0, so diamonds and repeated includes arise
+      'files': draw(st.lists(st.lists(_file_stmt, min_size=1, max_size=4), min_size=1,
+                             max_size=2)),
+      # spelling used to query every macro of the case right before finalize (None: no queries)
+      'query_end': draw(st.sampled_from([None, 0, 1, 2])),
       # unevaluated macro references make every finalize fail: only a third of the cases keep
       # them, in the others an 'unev' node is rendered as an ordinary %macro use
       'unev': draw(st.sampled_from([False, False, True])),
@@ -293,6 +324,10 @@ class Model:
     self.consts = {}       # complete constant name -> object
     self.pos = 0
     self.clears = 0        # clear_config() calls so far
+    self.deflog = []       # macro names in the order they were (re)bound since the last clear
+    self.refused = set()   # never-bound macros on which a query was refused since the last clear
+    self.inc_state = {}    # shared file index -> (deflog length after its last inclusion,
+                           #                       names it bound then)
     self.uses = {}         # macro name -> [(pos, parse index)]
     self.defs = {}         # macro name -> [(pos, parse index)]
 
@@ -525,6 +560,9 @@ def _clear(model, labels, flags):
   model.uses.clear()
   model.defs.clear()
   model.clears += 1
+  model.deflog = []
+  model.inc_state = {}
+  model.refused = set()
   labels.add('clear_config')
   for q, n in model.ok_queries():
     got = gin.query_parameter(q)
@@ -532,6 +570,66 @@ def _clear(model, labels, flags):
             lambda: f'after {model.clears} clear_config(): query_parameter({q!r}) returned '
                     f'{got!r} (id {id(got)}), not the object defined as {n!r}: '
                     f'{model.consts[n]!r} (id {id(model.consts[n])})')
+
+
+def _pure(node):
+  """(True, value) for a concrete node without any reference."""
+  kind = node[0]
+  if kind == 'lit':
+    return True, node[1]
+  if kind in ('list', 'tuple'):
+    parts = [_pure(x) for x in node[1]]
+    if not all(p[0] for p in parts):
+      return False, None
+    vals = [p[1] for p in parts]
+    return True, (vals if kind == 'list' else tuple(vals))
+  if kind == 'dict':
+    parts = [(k, _pure(x)) for k, x in node[1]]
+    if not all(p[0] for _, p in parts):
+      return False, None
+    return True, {k: p[1] for k, p in parts}
+  return False, None
+
+
+def _same(a, b):
+  if type(a) is not type(b):
+    return False
+  if isinstance(a, (list, tuple)):
+    return len(a) == len(b) and all(_same(x, y) for x, y in zip(a, b))
+  if isinstance(a, dict):
+    return list(a) == list(b) and all(_same(a[k], b[k]) for k in a)
+  return a == b
+
+
+QUERY_SPELLINGS = ['%{}', '{}/macro.value', '{}/gin.macro.value']
+
+
+def _query_macro(model, labels, name, spelling, when):
+  """gin.query_parameter on a macro: a never-bound one must be refused (and, as every later
+  step of the history re-checks, leave no trace); a literal one must read back."""
+  key = QUERY_SPELLINGS[spelling % len(QUERY_SPELLINGS)].format(name)
+  if name not in model.macros:
+    try:
+      got = gin.query_parameter(key)
+    except ValueError:
+      labels.add('query:unbound-macro-refused')
+      model.refused.add(name)
+      return
+    raise Violation('unbound-macro-query-returned',
+                    f'{when}: query_parameter({key!r}) returned {got!r} although {name!r} was '
+                    f'never bound (bound: {sorted(model.macros)})')
+  pure, want = _pure(model.macros[name])
+  if not pure:
+    try:
+      gin.query_parameter(key)       # unevaluated references inside: nothing to compare
+    except ValueError:
+      pass
+    return
+  got = gin.query_parameter(key)
+  require(_same(got, want), 'macro-value',
+          lambda: f'{when}: query_parameter({key!r}) returned {got!r}, the last binding in '
+                  f'force gives {want!r}')
+  labels.add('query:bound-literal-read')
 
 
 def _nt_flags(model, checked):
@@ -713,37 +811,116 @@ def check_case(case):
     parses = list(case['parses'])
     if not 1 <= len(parses) <= 4:
       raise OutOfDomain('1-4 parses')
+    files = [list(f) for f in (case.get('files') or [])]
+    if len(files) > 2:
+      raise OutOfDomain('at most two shared files')
+    file_paths = []
+
+    def concrete(stmt, ctx):
+      """Statement -> ('def', name, node) | ('bind', probe, param, node) | ('inc', file) | None.
+
+      ctx = index of the shared file the statement stands in (None: a parsed text).  It only
+      depends on the case (constants are all defined by now), so a file has one fixed text.
+      """
+      kind = stmt[0]
+      if kind == 'def':
+        owner = stmt[1] % len(names)
+        return ('def', names[owner], model.realise(stmt[2], owner))
+      if kind == 'use':
+        return ('bind', stmt[1] % len(PROBES), PARAMS[stmt[2] % len(PARAMS)],
+                model.realise(stmt[3], None))
+      if kind == 'allconst':
+        labels.add('const:all-suffixes')
+        return ('bind', stmt[1] % len(PROBES), PARAMS[stmt[2] % len(PARAMS)],
+                ('list', [('const', q, n) for q, n in model.ok_queries()]))
+      if kind == 'inc':
+        limit = len(files) if ctx is None else ctx     # a file only includes earlier files
+        return ('inc', stmt[1] % limit) if limit else None
+      raise OutOfDomain(f'unknown statement {kind!r}')
+
+    def first_def(j):
+      for stmt in files[j]:
+        if stmt[0] == 'def':
+          return stmt[1]
+        if stmt[0] in ('inc', 'reinc') and j > 0:
+          got = first_def(stmt[1] % j)
+          if got is not None:
+            return got
+      return None
+
+    def expand(stmt, ctx):
+      """['reinc', j, v] stands for two statements: X = v; include file j."""
+      if stmt[0] != 'reinc':
+        return [stmt]
+      limit = len(files) if ctx is None else ctx
+      if not limit:
+        return []
+      owner = first_def(stmt[1] % limit)
+      rebind = [['def', owner, ['i', stmt[2]]]] if owner is not None else []
+      return rebind + [['inc', stmt[1]]]
+
+    def line_of(c):
+      if c[0] == 'def':
+        return f'{c[1]} = {render(c[2])}'
+      if c[0] == 'bind':
+        return f'{PROBES[c[1]]}.{c[2]} = {render(c[3])}'
+      return f"include '{file_paths[c[1]]}'"
+
+    def apply(c, k):
+      """What the statement does to the model (an include: what the file's statements do)."""
+      if c[0] == 'inc':
+        j = c[1]
+        prev = model.inc_state.get(j)
+        if prev is not None:
+          labels.add('include:same-file-again')
+          if set(model.deflog[prev[0]:]) & prev[1]:
+            labels.add('include:again-after-rebinding')
+        start = len(model.deflog)
+        for stmt in files[j]:
+          for prim in expand(stmt, j):
+            cc = concrete(prim, j)
+            if cc is not None:
+              apply(cc, k)
+        model.inc_state[j] = (len(model.deflog), set(model.deflog[start:]))
+        labels.add('include:shared-file')
+        return
+      model.pos += 1
+      if c[0] == 'def':
+        node = c[2]
+        model.macros[c[1]] = node
+        model.defs.setdefault(c[1], []).append((model.pos, k))
+        model.deflog.append(c[1])
+      else:
+        node = c[3]
+        model.binds[(c[1], c[2])] = node
+      for rkind, rname, depth, in_key in model.refs(node):
+        if rkind != 'unev':
+          model.uses.setdefault(rname, []).append((model.pos, k))
+        if depth:
+          labels.add('use:nested')
+        if in_key:
+          labels.add('use:in-dict-key')
+
+    for i, fstmts in enumerate(files):
+      flines = [line_of(c) for c in (concrete(prim, i) for st_ in fstmts
+                                     for prim in expand(st_, i)) if c is not None]
+      path = os.path.join(tmpdir, f'shared{i}.gin')
+      with open(path, 'w') as f:
+        f.write('\n'.join(flines) + '\n')
+      file_paths.append(path)
     for k, op in enumerate(parses):
       for _ in range(op.get('clear', 0) or 0):
         _clear(model, labels, flags)
       lines = []
       for stmt in op['stmts']:
-        kind = stmt[0]
-        model.pos += 1
-        if kind == 'def':
-          owner = stmt[1] % len(names)
-          node = model.realise(stmt[2], owner)
-          lines.append(f'{names[owner]} = {render(node)}')
-          model.macros[names[owner]] = node
-          model.defs.setdefault(names[owner], []).append((model.pos, k))
-        elif kind in ('use', 'allconst'):
-          p, a = stmt[1] % len(PROBES), PARAMS[stmt[2] % len(PARAMS)]
-          if kind == 'use':
-            node = model.realise(stmt[3], None)
-          else:
-            node = ('list', [('const', q, n) for q, n in model.ok_queries()])
-            labels.add('const:all-suffixes')
-          lines.append(f'{PROBES[p]}.{a} = {render(node)}')
-          model.binds[(p, a)] = node
-        else:
-          raise OutOfDomain(f'unknown statement {kind!r}')
-        for rkind, rname, depth, in_key in model.refs(node):
-          if rkind != 'unev':
-            model.uses.setdefault(rname, []).append((model.pos, k))
-          if depth:
-            labels.add('use:nested')
-          if in_key:
-            labels.add('use:in-dict-key')
+        for prim in expand(stmt, None):
+          c = concrete(prim, None)
+          if c is None:
+            continue
+          lines.append(line_of(c))
+          apply(c, k)
+      if not lines:
+        lines.append('# nothing')
       _deliver(op['via'], lines, op.get('cut', [0, 0]), tmpdir, fileno, skip=op.get('skip', False))
       labels.add('via:' + op['via'])
       if op['via'] in ('file', 'include', 'split'):
@@ -763,6 +940,9 @@ def check_case(case):
             raise Violation('ambiguous-constant-accepted',
                             f'`{PROBES[0]}.c = {text}` parsed although %{q} matches '
                             f'{c_match(sorted(model.consts), q)}')
+      if op.get('query') is not None:
+        _query_macro(model, labels, names[op['query'][0] % len(names)], op['query'][1],
+                     f'after parse {k + 1}')
       if op.get('observe') and k < len(parses) - 1:
         _observe(model, seen, labels, f'after parse {k + 1}', stats)
         labels.add('observed-mid-history')
@@ -784,6 +964,10 @@ def check_case(case):
     _observe(model, seen, labels, 'after the last parse', stats)
     _observe(model, seen, labels, 'after the last parse, second call', stats)
 
+    if case.get('query_end') is not None:
+      for name in names:
+        _query_macro(model, labels, name, case['query_end'], 'before finalize')
+
     if case.get('finalize'):
       offenders = model.offenders()
       try:
@@ -799,6 +983,8 @@ def check_case(case):
                 lambda: f'finalize() returned although the configuration has {offenders[:4]}')
         require(not gin.config_is_locked(), 'locked-after-rejected-finalize',
                 lambda: f'finalize() raised {type(raised).__name__} and left the config locked')
+        if any(o[0] == 'unbound' and o[1] in model.refused for o in offenders):
+          labels.add('finalize:rejected-after-failed-query')
         kinds = {o[0] for o in offenders}
         for kd in kinds:
           labels.add('finalize:rejected-' + kd)
@@ -839,7 +1025,10 @@ def check_case(case):
     labels.add('probe-called')
   labels.add(f'parses:{len(case["parses"])}')
   labels.add('layer:sweep' if case.get('sweep') else 'layer:history')
-  nt = use_before_def or redefined_later or shared_used
+  reincluded = 'include:again-after-rebinding' in labels
+  if reincluded:
+    labels.add('nt:re-included-after-rebinding')
+  nt = use_before_def or redefined_later or shared_used or reincluded
   if nt:
     labels.add('nontrivial')
   return ok(labels, nt)
